@@ -1,10 +1,26 @@
 """Property -> units, level, assumptions.  Kept in step with MANIFEST.json by bin/gen_manifest.py."""
 
 PROPS = {
-    "C01": {"units": ["procs"], "level": "proof", "assumptions": []},
-    "C03": {"units": ["procs"], "level": "proof", "assumptions": []},
-    "C05": {"units": ["procs"], "level": "proof", "assumptions": []},
-    "C07": {"units": ["procs"], "level": "proof", "assumptions": []},
-    "C08": {"units": ["procs"], "level": "proof", "assumptions": []},
-    "C17": {"units": ["procs"], "level": "proof", "assumptions": []},
+    "C01": {"units": ["generate"], "level": "proof", "assumptions": []},
+    "C02": {"units": ["generate"], "level": "proof", "assumptions": []},
+    "C03": {"units": ["generate"], "level": "proof", "assumptions": []},
+    "C04": {"units": ["generate"], "level": "proof", "assumptions": []},
+    "C05": {"units": ["generate"], "level": "proof", "assumptions": []},
+    "C06": {"units": ["generate"], "level": "proof", "assumptions": []},
+    "C07": {"units": ["generate"], "level": "proof", "assumptions": []},
+    "C08": {"units": ["generate"], "level": "proof", "assumptions": []},
+    "C17": {"units": ["generate"], "level": "proof", "assumptions": []},
+    "C18": {"units": ["generate"], "level": "proof", "assumptions": []},
 }
+
+NOT_APPLICABLE = {
+    "C09": "behaviour of compiled user programs (rustc macro expansion + execution of two programs): no contract on Breadlog's functions expresses it",
+    "C10": "completeness of recognition is a theorem about the PEG in rust_grammar.pest as executed by pest's generated parser; Verus cannot take that code and Kani's compiler panics on the regex/pest dependency graph (DESIGN.md §1)",
+    "C11": "not yet built (planned: configured-macro filter clause only)",
+    "C12": "not yet built",
+    "C13": "not yet built",
+    "C14": "not yet built",
+    "C15": "not yet built",
+    "C16": "not yet built",
+}
+NOTES = "See DESIGN.md. Exit 2 = UNDECIDED (lost anchor / construct outside the verifier's subset), never on the unchanged tree."
